@@ -230,6 +230,10 @@ enum Tamper {
     ExtensionFlip,
     ExtensionDrop,
     ExtensionAppend,
+    /// no extension -> an extension field of zero bytes
+    ExtensionEmptyAdded,
+    /// some extension -> an extension field of zero bytes
+    ExtensionEmptied,
 }
 
 const TAMPERS: &[Tamper] = &[
@@ -260,6 +264,8 @@ const TAMPERS: &[Tamper] = &[
     Tamper::ExtensionFlip,
     Tamper::ExtensionDrop,
     Tamper::ExtensionAppend,
+    Tamper::ExtensionEmptyAdded,
+    Tamper::ExtensionEmptied,
 ];
 
 #[derive(Clone, Copy, Debug, PartialEq, Eq)]
@@ -784,6 +790,21 @@ impl Sess {
                 p.extension = None;
                 Some("extension removed".into())
             }
+            Tamper::ExtensionEmptyAdded => {
+                if p.extension.is_some() {
+                    return None;
+                }
+                p.extension = Some(ckb_types::bytes::Bytes::new().into());
+                Some("an empty extension field added to a block that has none".into())
+            }
+            Tamper::ExtensionEmptied => {
+                let ext = p.extension.clone()?;
+                if ext.raw_data().is_empty() {
+                    return None;
+                }
+                p.extension = Some(ckb_types::bytes::Bytes::new().into());
+                Some("extension replaced by an empty extension field".into())
+            }
             Tamper::ExtensionAppend => {
                 let mut raw = p.extension.as_ref().map(|e| e.raw_data().to_vec()).unwrap_or_default();
                 let extra_len = 1 + rng.usize_below(8);
@@ -801,6 +822,31 @@ impl Sess {
         others: &[TransactionView],
         r: &mut Report,
     ) {
+        // every generated block carries an extension (the chain root is committed from epoch 0
+        // on); one case in six is run on a twin without extension whose header commits to the
+        // uncles alone (extra hash computed by the harness; reconstruction does not need a
+        // contextually valid header)
+        let stripped: BlockView;
+        let x: &BlockView = if x.extension().is_some() && self.rng.chance(170, 1000) {
+            let d = x.data();
+            let uncles_hash: H = if d.uncles().is_empty() {
+                [0u8; 32]
+            } else {
+                let mut buf = vec![];
+                for u in d.uncles().into_iter() {
+                    buf.extend_from_slice(&blake2b_256(u.header().as_slice()));
+                }
+                blake2b_256(&buf)
+            };
+            let raw = d.header().raw().as_builder().extra_hash(Byte32::from_slice(&uncles_hash).unwrap()).build();
+            let header = d.header().as_builder().raw(raw).build();
+            let b0 = packed::Block::new_builder().header(header).uncles(d.uncles()).transactions(d.transactions()).proposals(d.proposals()).build();
+            stripped = vnode::builder::seal(&self.tg.gi.consensus, b0.into_view_without_reset_header());
+            r.count("base.block_without_extension");
+            &stripped
+        } else {
+            x
+        };
         let txs = x.transactions();
         let n = txs.len() - 1;
         // prefilled index set
